@@ -731,4 +731,88 @@ def SeqHOL.final (s : SeqHOL) : Bool := s.todo = 0 && s.cur = .none && s.running
 def SeqHOL.canStep (s : SeqHOL) : Bool :=
   [SeqStep.deliverId, .acceptID, .deliverReq, .take, .readReq, .finish].any fun a => (s.step a).isSome
 
+/-! ## a sync round's worker → orchestrator channel  (syncer/parallel_sync.go parallelSync)
+
+`respChan` is a buffered channel of capacity `cap` (128 in the code).  Workers (one per unsynced
+peer) take requests from `reqChan`, and send exactly one response per request; the orchestrator
+reads responses while the round runs (`reading`).  When the round is aborted (`ctx.Done()`,
+ingestion error, stall) the orchestrator stops reading, closes `reqChan` and waits for the workers
+(`wg.Wait`).  A request that was in flight at that moment may still succeed (its worker then takes
+one more buffered request, which fails at once because the context is cancelled); a worker whose
+request fails sends the error response and exits; an idle worker finds `reqChan` closed and exits
+once the buffered requests are gone. -/
+
+structure Round where
+  cap : Nat
+  /-- responses in `respChan` -/
+  len : Nat := 0
+  /-- workers with a request in flight that was handed out while the round was running -/
+  busyOld : Nat := 0
+  /-- workers with a request they took after the abort (it can only fail) -/
+  busyNew : Nat := 0
+  /-- workers waiting for a request -/
+  idle : Nat := 0
+  /-- requests buffered in `reqChan` -/
+  queued : Nat := 0
+  reading : Bool := true
+  joined : Bool := false
+deriving DecidableEq, Repr
+
+inductive RoundStep
+  /-- ticker branch: a worker is started for a new peer and a request is queued -/
+  | spawn
+  /-- a worker takes a request from `reqChan` -/
+  | assign
+  /-- a worker's request succeeded: `respChan <- resp`, then it waits for the next request -/
+  | respondOk
+  /-- a worker's request failed: `respChan <- resp`, then it exits -/
+  | respondErr
+  /-- the orchestrator reads a response (and queues the next / the failed request again) -/
+  | consume (requeue : Bool)
+  /-- the round is aborted: the orchestrator stops reading and closes `reqChan` -/
+  | abort
+  /-- an idle worker finds `reqChan` closed and empty -/
+  | workerQuit
+  /-- `wg.Wait()` returns -/
+  | join
+deriving DecidableEq, Repr
+
+def Round.step (s : Round) : RoundStep → Option Round
+  | .spawn => if s.reading then some { s with idle := s.idle + 1, queued := s.queued + 1 } else none
+  | .assign =>
+    if 0 < s.queued ∧ 0 < s.idle then
+      if s.reading then some { s with queued := s.queued - 1, idle := s.idle - 1, busyOld := s.busyOld + 1 }
+      else some { s with queued := s.queued - 1, idle := s.idle - 1, busyNew := s.busyNew + 1 }
+    else none
+  | .respondOk =>
+    -- a send on a full channel blocks: the step is not enabled
+    if 0 < s.busyOld ∧ s.len < s.cap then
+      some { s with busyOld := s.busyOld - 1, idle := s.idle + 1, len := s.len + 1 }
+    else none
+  | .respondErr =>
+    if s.len < s.cap then
+      if 0 < s.busyOld then some { s with busyOld := s.busyOld - 1, len := s.len + 1 }
+      else if 0 < s.busyNew then some { s with busyNew := s.busyNew - 1, len := s.len + 1 }
+      else none
+    else none
+  | .consume rq =>
+    if s.reading ∧ 0 < s.len then
+      some { s with len := s.len - 1, queued := if rq then s.queued + 1 else s.queued }
+    else none
+  | .abort => if s.reading then some { s with reading := false } else none
+  | .workerQuit =>
+    if !s.reading ∧ s.queued = 0 ∧ 0 < s.idle then some { s with idle := s.idle - 1 } else none
+  | .join =>
+    if !s.reading ∧ s.busyOld = 0 ∧ s.busyNew = 0 ∧ s.idle = 0 ∧ !s.joined then some { s with joined := true }
+    else none
+
+def roundSys : Sys Round RoundStep := ⟨Round.step⟩
+
+/-- responses that may still be sent once the orchestrator has stopped reading, plus those already
+in the channel -/
+def Round.demand (s : Round) : Nat := s.len + 2 * s.busyOld + s.busyNew + s.idle
+
+def Round.canStep (s : Round) : Bool :=
+  [RoundStep.assign, .respondOk, .respondErr, .workerQuit, .join].any fun a => (s.step a).isSome
+
 end Verif.Conc
